@@ -8,14 +8,15 @@ from ..core import Batch, cN, cZ, cbool, clist, copt, cpair, cnat
 ID = "C16"
 LEVEL = "proof"
 PROP_FILE = "Properties/C16.v"
-PROOF_FILES = ["Proofs/EntryProofs.v", "Model/Entry.v", "Base/Ext.v"]
-TRUSTED = ["model Model/Entry.v of Entry/EntryProxy/Table (utils/dynamic_programming.py): tag set as duplicate-free list, values in Z + {-inf, +inf}"]
+PROOF_FILES = ["Gen/EntryGen.v", "Proofs/EntryGenProofs.v", "Proofs/EntryExtraProofs.v", "Proofs/EntryProofs.v", "Model/Entry.v", "Base/Ext.v"]
+TRUSTED = [
+    "translator translator/pyfun.py + the type table in translator/entry_gen.py: Entry.__init__ (default path), update, combine, is_infinite, value, infos are translated statement by statement into Gen/EntryGen.v on every run and proved equal to Model/Entry.v (values as ext, a tag = a truthy info = Some t, a Python set = duplicate-free list in insertion order, combinator pure and total)","model Model/Entry.v of Entry/EntryProxy/Table (utils/dynamic_programming.py): tag set as duplicate-free list, values in Z + {-inf, +inf}"]
 ASSUMES = ["infinity.inf compares and adds like an extended integer", "falsy info tags (None) are the only untagged candidates used; hashable tags compare by equality"]
 RULE = ("update histories = sequences of (value, tag) candidates split into batches, for the 2x3 policies, on standalone entries and table cells; "
         "exhaustive over values {0,1,2} x tags {none,a,b} up to the tier's length with every batching, plus random longer histories with +-inf; "
         "non-trivial = at least two candidates of which two tie for the optimum or an improving candidate follows a tagged one")
 OPEN_GOALS: list = []
-TECHNIQUE = "Coq proof by induction over update histories (case lemma per update step) of value/tag laws; model tied to Entry/Table by exhaustive short histories + random long ones evaluated with vm_compute"
+TECHNIQUE = "translator tie: class Entry is regenerated into Gallina on every run and proved equal to the model; Coq proof by induction over update histories (case lemma per update step) of value/tag laws; model tied to Entry/Table by exhaustive short histories + random long ones evaluated with vm_compute"
 LEVEL_TEXT = ("Machine-checked for histories of any length: value = optimum of all candidates; tags under ALL = exactly the tags of optimal candidates (duplicate-free), "
               "under ANY one tag of an optimal candidate iff one is tagged, under NONE none; batching irrelevant; combine = optimum/arg-opt over pairs of retained tags; "
               "a table cell reads as the entry fed the finite-bearing batches addressed to it, default when there are none. "
@@ -127,6 +128,13 @@ def _oracle_entry(mp_min, rp, flat, r, start=None):
     if rp == 0 and r[1] != []:
         return False, f"'none' should keep no tag, got {r[1]}"
     return True, "value and tags are those the property demands"
+
+
+def pre_build(ctx):
+    from translator import entry_gen
+    from .. import core
+    changed = entry_gen.regenerate(core.REPO)
+    ctx.notes.append("Gen/EntryGen.v (class Entry of utils/dynamic_programming.py) " + ("regenerated (content changed)" if changed else "regenerated: unchanged"))
 
 
 def batches(ctx):
